@@ -148,17 +148,38 @@ def pmap(func, items, limit=20.0, confirm=True):
     UNRESOLVED_HANGS - run_property reports every logged hang that the property module did not handle itself."""
     items = list(items)
     g = _Guarded(func, limit)
+    res = []
+    hangs = 0
     if len(items) < 64:
-        res = [g(x) for x in items]
+        for x in items:
+            res.append(g(x) if hangs < 32 else HANG)
+            hangs += isinstance(res[-1], str) and res[-1] == HANG
     else:
+        # in slices, so that a tree on which (almost) every evaluation hangs ends the sweep after a few dozen hangs
+        # instead of waiting `limit` seconds for each of tens of thousands of items
+        step = 256                      # slices grow geometrically while nothing hangs
+        lo = 0
         with multiprocessing.get_context('fork').Pool(NCPU) as pool:
-            res = pool.map(g, items, chunksize=max(1, min(256, len(items) // (NCPU * 8))))
+            while lo < len(items):
+                part = items[lo:lo + step]
+                lo += len(part)
+                if hangs >= 32:
+                    res.extend([HANG] * len(part))
+                    continue
+                out = pool.map(g, part, chunksize=max(1, min(256, len(part) // (NCPU * 8))))
+                h = sum(1 for r in out if isinstance(r, str) and r == HANG)
+                hangs += h
+                res.extend(out)
+                if h == 0:
+                    step = min(step * 4, max(256, len(items) // 8))
+    confirmed = 0
     for i, r in enumerate(res):
         if isinstance(r, str) and r == HANG:
-            if confirm:
+            if confirm and confirmed < 4 and hangs < 32:
+                confirmed += 1
                 r = _Guarded(func, max(6 * limit, 90.0))(items[i])
             if isinstance(r, str) and r == HANG:
-                if confirm:
+                if confirm and len(UNRESOLVED_HANGS) < 40:
                     UNRESOLVED_HANGS.append(repr(items[i])[:400])
                 r = HangResult()
             res[i] = r
